@@ -18,7 +18,7 @@ RULE = (
     'non-trivial = >=8 particles not on a lattice, >=2 k-bins, and a non-identity transformation; distinct = descriptor hash.'
 )
 ASSUMPTIONS = [
-    'float comparisons: atol 2e-4*max|P| (per column), rtol 1e-3 for power/poles/k_avg (float32 field + FFT); N_mode, N_mode_poles, k_min/k_max/k_mid, mu_* exact',
+    'float comparisons: atol 2e-4*max|P| (per column) + noise floor 1e-10*L^3*max(1,ncell/N)^2, rtol 1e-3 for power/poles/k_avg (float32 field + FFT); N_mode, N_mode_poles, k_min/k_max/k_mid, mu_* exact',
     'CIC positions stay strictly inside [0,L) (cic_serial does not wrap); whole-cell shifts are applied in float64 and wrapped before casting',
     'symmetries do not pin the absolute normalisation or the mode bookkeeping (C08 covers that)',
 ]
@@ -119,7 +119,7 @@ EXACT = ('N_mode', 'N_mode_poles', 'k_min', 'k_max', 'k_mid', 'mu_min', 'mu_max'
 FLOATS = ('power', 'poles', 'k_avg')
 
 
-def _compare(base, other, what, floats=True):
+def _compare(base, other, what, floats=True, floor=0.0):
     if list(base.colnames) != list(other.colnames) or len(base) != len(other):
         raise Violation('table-shape-differs', '%s: columns/rows %s x %d vs %s x %d' % (what, base.colnames, len(base), other.colnames, len(other)))
     for c in base.colnames:
@@ -136,7 +136,8 @@ def _compare(base, other, what, floats=True):
                 raise Violation('symmetry-broken:' + what.split(':')[0], '%s: column %s finite/NaN pattern differs' % (what, c))
             if fin.any():
                 scale = float(np.max(np.abs(a64[fin])))
-                ok = np.abs(a64[fin] - b64[fin]) <= 2e-4 * scale + 1e-3 * np.abs(a64[fin]) + 1e-30
+                fl = floor if c in ('power', 'poles') else 0.0
+                ok = np.abs(a64[fin] - b64[fin]) <= 2e-4 * scale + 1e-3 * np.abs(a64[fin]) + fl + 1e-30
                 if not ok.all():
                     i = int(np.flatnonzero(~ok)[0])
                     raise Violation('symmetry-broken:' + what.split(':')[0], '%s: column %s differs: %r vs %r (max|col| %g)' % (what, c, a64[fin][i], b64[fin][i], scale))
@@ -149,20 +150,23 @@ def run_case(d):
     box, nmesh = d['box'], d['nmesh']
     base = _run(ps, d, pos, w, d['nthread'])
     cls = []
+    # absolute floor: a field whose true power vanishes (particles on a lattice commensurate with the mesh) leaves pure
+    # float32 rounding noise, P ~ (eps * ncell/N)^2 * L^3; the floor is >= 4 decades above that and >= 3 decades below shot noise L^3/N
+    floor = 1e-10 * box**3 * max(1.0, nmesh**3 / float(len(pos))) ** 2
     # permutation
     perm = np.random.Generator(np.random.PCG64(d['permseed'])).permutation(len(pos))
-    _compare(base, _run(ps, d, pos[perm], None if w is None else w[perm], d['nthread']), 'permutation')
+    _compare(base, _run(ps, d, pos[perm], None if w is None else w[perm], d['nthread']), 'permutation', floor=floor)
     # whole-cell translation with periodic wrap
     sh = np.array(d['shift'], dtype=np.float64) * (box / nmesh)
     p2 = np.mod(pos.astype(np.float64) + sh, box).astype(pos.dtype)
     p2 = _inside(p2, box)
-    _compare(base, _run(ps, d, p2, w, d['nthread']), 'translation')
+    _compare(base, _run(ps, d, p2, w, d['nthread']), 'translation', floor=floor)
     # thread count
     if d['nthread2'] != d['nthread']:
-        _compare(base, _run(ps, d, pos, w, d['nthread2']), 'threads')
+        _compare(base, _run(ps, d, pos, w, d['nthread2']), 'threads', floor=floor)
         cls.append('threads-differ')
     # cross == auto
-    _compare(base, _run(ps, d, pos, w, d['nthread'], pos2=pos, w2=w), 'cross=auto')
+    _compare(base, _run(ps, d, pos, w, d['nthread'], pos2=pos, w2=w), 'cross=auto', floor=floor)
     # bookkeeping independent of the particles
     q, wq = _particles(dict(d, n=max(1, d['n'] // 2 + 1), dist='uniform'), seed_shift=17)
     _compare(base, _run(ps, d, q, wq, d['nthread']), 'other-particles', floats=False)
